@@ -5,6 +5,7 @@ from ..astx import (calls_in, dotted, norm, src, iter_nodes, assigned_targets, a
                     const_value, is_const, parent_chain, aliases_of)
 from ..lib import (raises, call_arg, relation, truth, other, cmp_views, core, holds_region, conditions, found_test, found_tests, path_tests, entails_empty, paths_entail_empty, eval_conditions, relation_tests, atom_key, expand_condition, mode_mismatch_conditions, is_bytes_mode_text_guard, cfg_nodes_with_call, node_calls, returns, stmt_assigns_attr, callee_last,
                    is_name, is_self_attr, node_roots, guard_region)
+from ..lib import *      # noqa: F401,F403  (path-condition helpers)
 from ..linear import ctext
 from ..loader import AnalysisError
 from ..callgraph import reach
@@ -84,7 +85,7 @@ def run(R):
         rets = returns(f)
         plain = [r for r in rets if is_name(r.ast.value, f.params[1])]
         got = conditions(g, g.node_for(encs[0])) if encs else None
-        okp = len(plain) == 1 and len(rets) == 2 and not raises(f) and got == mode_mismatch_conditions(f.params[1], True)
+        okp = len(plain) >= 1 and len(rets) == len(plain) + 1 and not raises(f) and got == mode_mismatch_conditions(f.params[1], True)
         c.check(okp, f, encs[0] if encs else None, 'only non-bytes given to a bytes-mode object are converted; everything else is returned unchanged',
                 witness='converted under %s' % sorted(got or []), kind='path', tag='coerce-guard')
 
